@@ -45,6 +45,9 @@ CONST = 64 * 1024
 HDLC_PATTERNS = ["all_flags", "flag_junk", "valid_frames", "never_ending_frame", "random", "random_ascii", "escape_flood", "flag_escape_alternating", "open_frame_then_flags", "open_frame_then_escapes", "open_frame_then_flag_escape", "valid_frames_single_flag", "invalid_frames_single_flag", "aborted_frames", "junk_frames_varying", "valid_frame_then_ff", "valid_frame_then_noflag_noise"]
 P1_PATTERNS = ["ident_no_end", "slash_no_lf", "ident_endless_lines", "valid_readouts", "random", "random_ascii", "ident_lines_repeated", "ident_endless_blank_lines", "ident_endless_lf", "lf_forever", "cr_forever", "ident_endless_bang_less_text", "ident_then_nonascii_line", "valid_readouts_varying_ident", "ident_lines_varying", "varying_ident_no_end"]
 CHUNKS = [1, 64, 1024, 65536]
+# flag, escape and their escaped forms; XON / XOFF (the control characters of RFC 1662's async map, also with parity bit);
+# NUL, DEL, 0xFF, 0x80; CR, LF, '/', '!', blank
+LINK_OCTETS = [0x7E, 0x7D, 0x5E, 0x5D, 0x11, 0x13, 0x91, 0x93, 0x00, 0x7F, 0xFF, 0x80, 0x0D, 0x0A, 0x2F, 0x21, 0x20]
 
 
 def gen(rng, tier, index):
@@ -64,7 +67,9 @@ def gen(rng, tier, index):
         elif fam == 1:
             reader, cfg, pattern = "p1", None, "p1_soup"
         elif fam == 2:
-            x = (n * 37) % 256 if tier == "quick" else n % 256  # quick: a stride through the values; thorough: all of them in order
+            # quick: first the octets that mean something on an asynchronous HDLC link or a P1 line, then a stride through
+            # the rest; thorough: all 256 values in order
+            x = (LINK_OCTETS[n] if n < len(LINK_OCTETS) else ((n - len(LINK_OCTETS)) * 37) % 256) if tier == "quick" else n % 256
             reader, cfg, pattern = "hdlc", [bool((n // 256) % 2 == 0), bool(n % 2)], f"octet_flood:{x}"
         else:
             reader, cfg, pattern = "p1", None, f"token_flood:{n % len(P1_TOKENS)}"
